@@ -2,6 +2,7 @@ import SqlizeModel.Proofs.SpecCreate
 import SqlizeModel.Proofs.SpecTableFk
 import SqlizeModel.Proofs.SpecJustified
 import SqlizeModel.Proofs.TablesClause
+import SqlizeModel.Proofs.TableOrder
 
 namespace Sqlize
 open Spec
@@ -37,6 +38,41 @@ theorem execAll_groups : ∀ (steps : List (String × List Stmt)) (db : DB) (Q :
       have hu1 : u ≠ p.1 := fun e => hu (by simp [e])
       have hu2 : u ∉ rest.map (·.1) := fun h => hu (by simp [h])
       rw [hfr' u hu2, hfr1 u hu1]
+
+/-- the same with the list of table names followed through the groups: group `p` turns the names `l` into `T p.1 l` -/
+theorem execAll_groups_names (T : String → List String → List String) :
+    ∀ (steps : List (String × List Stmt)) (db : DB) (Q : String → Option TableSpec → Prop),
+    (steps.map (·.1)).Nodup → (db.map (·.name)).Nodup →
+    (∀ p ∈ steps, ∀ db0 : DB, (db0.map (·.name)).Nodup → db0.find p.1 = db.find p.1 →
+        ∃ db1, execAll false db0 p.2 = some db1 ∧ Q p.1 (db1.find p.1) ∧ (∀ u, u ≠ p.1 → db1.find u = db0.find u) ∧
+          (db1.map (·.name)).Nodup ∧ db1.map (·.name) = T p.1 (db0.map (·.name))) →
+    ∃ db', execAll false db (steps.flatMap (·.2)) = some db' ∧ (∀ p ∈ steps, Q p.1 (db'.find p.1)) ∧
+      (∀ u, u ∉ steps.map (·.1) → db'.find u = db.find u) ∧ (db'.map (·.name)).Nodup ∧
+      db'.map (·.name) = (steps.map (·.1)).foldl (fun l t => T t l) (db.map (·.name)) := by
+  intro steps
+  induction steps with
+  | nil =>
+    intro db Q _ hnd _
+    exact ⟨db, rfl, fun p hp => (by cases hp), fun _ _ => rfl, hnd, rfl⟩
+  | cons p rest ih =>
+    intro db Q hndS hnd hstep
+    rw [List.map_cons, List.nodup_cons] at hndS
+    obtain ⟨db1, he1, hf1, hfr1, hnd1, hnm1⟩ := hstep p (by simp) db hnd rfl
+    obtain ⟨db', he', hfin', hfr', hnd', hnm'⟩ := ih db1 Q hndS.2 hnd1 (by
+      intro q hq db0 hnd0 hfq
+      have hne : q.1 ≠ p.1 := fun e => hndS.1 (e ▸ List.mem_map_of_mem hq)
+      exact hstep q (List.mem_cons_of_mem _ hq) db0 hnd0 (by rw [hfq, hfr1 q.1 hne]))
+    refine ⟨db', ?_, ?_, ?_, hnd', ?_⟩
+    · rw [List.flatMap_cons, execAll_append, he1]; exact he'
+    · intro q hq
+      rcases List.mem_cons.mp hq with rfl | hq'
+      · rw [hfr' q.1 hndS.1]; exact hf1
+      · exact hfin' q hq'
+    · intro u hu
+      have hu1 : u ≠ p.1 := fun e => hu (by simp [e])
+      have hu2 : u ∉ rest.map (·.1) := fun h => hu (by simp [h])
+      rw [hfr' u hu2, hfr1 u hu1]
+    · rw [hnm', hnm1, List.map_cons, List.foldl_cons]
 
 /-- finite choice along a list -/
 theorem list_choice {α β : Type} (P : α → β → Prop) : ∀ (l : List α), (∀ x ∈ l, ∃ y, P x y) →
@@ -186,7 +222,8 @@ theorem schema_spec_up (g : Globals) (hg : g.dialect = .mysql) (hio : g.ignoreOr
         ∀ s ∈ tbN.idxs, ∀ o ∈ tbO.idxs, o.name = s.name → o ≠ s → ∃ c ∈ o.cols, c ∉ dc) ∧
       (∀ s ∈ tbN.fks, ∀ o ∈ tbO.fks, s.name = o.name → s = o)) :
     ∃ d out, loadAndDiff g old new = .ok d ∧ d.migrationUp g = .ok (d, out) ∧
-      (∃ db', execAll false dbO out.flatten = some db' ∧ db'.equiv dbN = true) ∧
+      (∃ db', execAll false dbO out.flatten = some db' ∧ db'.equiv dbN = true ∧
+        db'.map (·.name) = namesAfter (dbO.map (·.name)) (dbN.map (·.name))) ∧
       ∀ s ∈ out.flatten, justified dbO dbN s = true := by
   have hoc : old.all Stmt.colSafe = true :=
     List.all_eq_true.mpr (fun s hs => Stmt.colSafe_of_elemSafe s (List.all_eq_true.mp ho s hs))
@@ -222,7 +259,8 @@ theorem schema_spec_up (g : Globals) (hg : g.dialect = .mysql) (hio : g.ignoreOr
   have hgroup : ∀ td ∈ d.tables, ∃ ss, Migration.TableOut g td ss ∧ (∀ s ∈ ss, justified dbO dbN s = true) ∧
       ∀ db0 : DB, (db0.map (·.name)).Nodup → db0.find td.name = dbO.find td.name →
         ∃ db1, execAll false db0 ss = some db1 ∧ GroupGoal dbN td.name (db1.find td.name) ∧
-          (∀ u, u ≠ td.name → db1.find u = db0.find u) ∧ (db1.map (·.name)).Nodup := by
+          (∀ u, u ≠ td.name → db1.find u = db0.find u) ∧ (db1.map (·.name)).Nodup ∧
+          db1.map (·.name) = stepNames (dbO.map (·.name)) (dbN.map (·.name)) td.name (db0.map (·.name)) := by
     intro td htd
     cases hfN : dbN.find td.name with
     | some tbN =>
@@ -258,7 +296,13 @@ theorem schema_spec_up (g : Globals) (hg : g.dialect = .mysql) (hio : g.ignoreOr
         refine ⟨cs ++ is ++ td'.migrationForeignKeyUp dc, ⟨cs, dc, is, hcs, his, rfl⟩, hjust, ?_⟩
         intro db0 hnd0 hf0
         obtain ⟨db1, tb1, he1, hf1, hc1, hi1, hp1, hn1, hk1, hfr1, hnm1⟩ := hrun db0 hnd0 hf0
-        refine ⟨db1, he1, ?_, hfr1, by rw [hnm1]; exact hnd0⟩
+        have hinN : (dbN.map (·.name)).contains td'.name = true := by
+          have : td'.name ∈ dbN.map (·.name) := by rw [← hnN]; exact List.mem_map_of_mem (mem_of_find hfN)
+          simpa using this
+        have hinO : (dbO.map (·.name)).contains td'.name = true := by
+          have : td'.name ∈ dbO.map (·.name) := by rw [← hnO]; exact List.mem_map_of_mem (mem_of_find hfO)
+          simpa using this
+        refine ⟨db1, he1, ?_, hfr1, by rw [hnm1]; exact hnd0, by unfold stepNames; rw [if_pos hinN, if_pos hinO]; exact hnm1⟩
         unfold GroupGoal
         rw [hfN]
         refine ⟨tb1, hf1, ?_⟩
@@ -287,7 +331,13 @@ theorem schema_spec_up (g : Globals) (hg : g.dialect = .mysql) (hio : g.ignoreOr
             have := (has_iff db0 td'.name).mp h
             exact absurd this ((find_none_iff db0 td'.name).mp hf0)
         obtain ⟨db1, tb1, he1, hf1, heq1, hfr1, hnm1⟩ := hrun db0 hnd0 hnot
-        refine ⟨db1, by rw [hfs]; exact he1, ?_, hfr1, ?_⟩
+        have hinN : (dbN.map (·.name)).contains td'.name = true := by
+          have : td'.name ∈ dbN.map (·.name) := by rw [← hnN]; exact List.mem_map_of_mem (mem_of_find hfN)
+          simpa using this
+        have hninO : (dbO.map (·.name)).contains td'.name = false := by
+          have : td'.name ∉ dbO.map (·.name) := (find_none_iff dbO td'.name).mp hfO
+          simpa using this
+        refine ⟨db1, by rw [hfs]; exact he1, ?_, hfr1, ?_, ?_⟩
         · unfold GroupGoal
           rw [hfN]
           exact ⟨tb1, hf1, heq1⟩
@@ -297,6 +347,9 @@ theorem schema_spec_up (g : Globals) (hg : g.dialect = .mysql) (hio : g.ignoreOr
           intro a ha b hb hab
           have hb : b = td'.name := by simpa using hb
           exact (find_none_iff db0 td'.name).mp hf0 (by rw [← hb, ← hab]; exact ha)
+        · unfold stepNames
+          rw [if_pos hinN, hninO]
+          exact hnm1
     | none =>
       -- a table only the old side has: DROP TABLE
       have hnotN : td.name ∉ mn.tblNames := by rw [← hNn]; exact (find_none_iff dbN td.name).mp hfN
@@ -338,10 +391,18 @@ theorem schema_spec_up (g : Globals) (hg : g.dialect = .mysql) (hio : g.ignoreOr
           | some tbO =>
             rw [hfo] at hf0
             exact (has_iff db0 td.name).mpr (by rw [← find_name db0 _ _ hf0]; exact List.mem_map_of_mem (mem_of_find hf0))
-        refine ⟨db0.filter (·.name != td.name), ?_, ?_, fun u hu => find_filter_ne db0 td.name u hu, ?_⟩
+        have hninN : (dbN.map (·.name)).contains td.name = false := by
+          have : td.name ∉ dbN.map (·.name) := (find_none_iff dbN td.name).mp hfN
+          simpa using this
+        refine ⟨db0.filter (·.name != td.name), ?_, ?_, fun u hu => find_filter_ne db0 td.name u hu, ?_, ?_⟩
         · simp [execAll, exec, hhas]
         · unfold GroupGoal; rw [hfN]; exact find_filter_self db0 td.name
         · exact hnd0.sublist ((List.filter_sublist).map _)
+        · unfold stepNames
+          rw [hninN]
+          simp only [Bool.false_eq_true, if_false]
+          rw [List.filter_map]
+          rfl
   -- names covered by the records
   have hcovN : ∀ u ∈ dbN.map (·.name), ∃ td ∈ d.tables, td.name = u := by
     intro u hu
@@ -379,7 +440,8 @@ theorem schema_spec_up (g : Globals) (hg : g.dialect = .mysql) (hio : g.ignoreOr
       (∀ s ∈ ss, justified dbO dbN s = true) ∧
       ∀ db0 : DB, (db0.map (·.name)).Nodup → db0.find td.name = dbO.find td.name →
         ∃ db1, execAll false db0 ss = some db1 ∧ GroupGoal dbN td.name (db1.find td.name) ∧
-          (∀ u, u ≠ td.name → db1.find u = db0.find u) ∧ (db1.map (·.name)).Nodup) d.tables hgroup
+          (∀ u, u ≠ td.name → db1.find u = db0.find u) ∧ (db1.map (·.name)).Nodup ∧
+          db1.map (·.name) = stepNames (dbO.map (·.name)) (dbN.map (·.name)) td.name (db0.map (·.name))) d.tables hgroup
   have hmemS : ∀ p ∈ steps, p.1 ∈ d.tables := by
     intro p hp
     rw [← hsteps]; exact List.mem_map_of_mem hp
@@ -399,7 +461,8 @@ theorem schema_spec_up (g : Globals) (hg : g.dialect = .mysql) (hio : g.ignoreOr
     simp only [hmig, bind, Except.bind, pure, Except.pure] at hU'
     exact ((Prod.mk.inj (Except.ok.inj hU')).2).symm
   -- run them on the old schema
-  obtain ⟨db', hrun, hfin, hframe, hndD⟩ := execAll_groups (steps.map (fun p => (p.1.name, p.2))) dbO (GroupGoal dbN)
+  obtain ⟨db', hrun, hfin, hframe, hndD, hnmD⟩ := execAll_groups_names
+      (stepNames (dbO.map (·.name)) (dbN.map (·.name))) (steps.map (fun p => (p.1.name, p.2))) dbO (GroupGoal dbN)
     (by
       rw [List.map_map]
       have : steps.map ((fun p : String × List Stmt => p.1) ∘ (fun p : Table × List Stmt => (p.1.name, p.2))) = (steps.map (·.1)).map (·.name) := by
@@ -413,9 +476,26 @@ theorem schema_spec_up (g : Globals) (hg : g.dialect = .mysql) (hio : g.ignoreOr
   have hflat2 : (steps.map (fun p => (p.1.name, p.2))).flatMap (·.2) = steps.flatMap (·.2) := by
     rw [List.flatMap_map]
   rw [hflat2, ← hflat, ← hout] at hrun
-  refine ⟨d, outU, hd, hU, ⟨db', hrun, ?_⟩, ?_⟩
-  rotate_left
-  · -- every printed statement is justified by a difference
+  refine ⟨d, outU, hd, hU, ⟨db', hrun, ?eq, ?nm⟩, ?just⟩
+  case nm =>
+    -- the order of the tables: the records are the new side's tables in its order, then the old-only ones
+    rw [hnmD]
+    have hrec : (steps.map (fun p => (p.1.name, p.2))).map (·.1) = d.tables.map (·.name) := by
+      rw [List.map_map, ← hsteps, List.map_map]; rfl
+    rw [hrec, happ, List.map_append, hnames, List.map_map]
+    have hrem : (mo.tables.filter (fun ot => !mn.tblNames.contains ot.name)).map
+        ((fun x : Table => x.name) ∘ (fun ot : Table => { ot with action := .remove })) =
+        (dbO.map (·.name)).filter (fun n => !(dbN.map (·.name)).contains n) := by
+      rw [hOn, hNn]
+      show _ = (mo.tables.map (·.name)).filter _
+      rw [List.filter_map]
+      rfl
+    rw [hrem]
+    have hNn' : mn.tables.map (fun x => x.name) = dbN.map (·.name) := hNn.symm
+    rw [hNn']
+    exact foldl_stepNames _ _
+  case just =>
+    -- every printed statement is justified by a difference
     intro s hs
     rw [hout, hflat] at hs
     obtain ⟨p, hp, hsp⟩ := List.mem_flatMap.mp hs
